@@ -303,9 +303,9 @@ func (a *API) NotifyRev(ctx context.Context, tok int) {
 	if rc, ok := jsonrpc.ExtractReverseClient[RevClient](ctx); ok {
 		s, err := rc.Who(ctx, tok)
 		t.mu.Lock()
-		t.Val = s
+		t.RevVal = s
 		if err != nil {
-			t.Val = "reverr:" + err.Error()
+			t.RevVal = "reverr:" + err.Error()
 		}
 		t.mu.Unlock()
 	}
